@@ -88,7 +88,9 @@ class SliceOperator(LinearOperator):
                 )
                 raise ValueError(ve)
 
-            if center:
+            if new_shape[i] is None:  # keep this sub-domain as it is
+                slc_by_ax += [slice(None)]*len(d.shape)
+            elif center:
                 for j, n_pix in enumerate(np.atleast_1d(new_shape[i])):
                     slc_start = np.floor((d.shape[j] - n_pix) / 2.).astype(int)
                     slc_end = slc_start + n_pix
